@@ -361,7 +361,7 @@ func (c *Ctx) osConst(name string) int {
 
 func runC13(c *Ctx) {
 	p, r := c.P, c.R
-	r.Explanation = "Decides on every path of the three stock sinks: writer.Sink and FileSink acknowledge (nil, nil) only after writing a reader over exactly the bytes Event.Format returned for the configured format (JSON when unset), once — or once more after rewinding the same reader when the first write failed — with the sink mutex held for writing, with the (last) write's error tested nil; a missing format or a failing write is an error; FileSink's /dev/null returns (nil, nil) without touching a file and stdout/stderr select os.Stdout/os.Stderr; ChannelSink.Process is one blocking select with exactly three arms — send of the very event parameter on the sink's channel -> (nil, nil), <-ctx.Done() -> (nil, ctx.Err()), <-time.After(timeout) -> (nil, non-nil) — no default and no other blocking instruction. Behaviour of the supplied io.Writer and real-time bounds are not decided."
+	r.Explanation = "Decides on every path of the three stock sinks: writer.Sink and FileSink acknowledge (nil, nil) only after writing a reader over exactly the bytes Event.Format returned for the configured format (JSON when unset), once — or once more after rewinding the same reader when the first write failed — with the sink mutex held for writing, with the (last) write's error tested nil; a missing format or a failing write is an error; FileSink's /dev/null returns (nil, nil) without touching a file and stdout/stderr select os.Stdout/os.Stderr; ChannelSink.Process is one blocking select with exactly three arms — send of the very event parameter on the sink's channel -> (nil, nil), <-ctx.Done() -> (nil, ctx.Err()), <-time.After(timeout) -> (nil, non-nil) — no default and no other blocking instruction. Behaviour of the supplied io.Writer and real-time bounds are not decided. C13.ctor: NewChannelSink stores exactly its arguments after both guards."
 	r.NotDecided = []string{"behaviour of user-supplied io.Writers (short writes, buffering)", "real-time bounds of the timeout"}
 	c.lockControls()
 	// --- C13.writer
@@ -903,7 +903,7 @@ var fileSinkErrExceptions = []ErrException{
 
 func runC15(c *Ctx) {
 	p, r := c.P, c.R
-	r.Explanation = "Decides the configuration-to-behaviour clauses structurally: the full decision table of FileSink.rotate over the 81 orderings of {BytesWritten vs MaxBytes, MaxBytes vs 0, time.Since(LastCreated) vs MaxDuration, MaxDuration vs 0} — the branch that closes the file is taken iff (bytes >= max and max > 0) or (elapsed > dur and dur > 0); the file-name function yields the plain configured name iff TimestampOnlyOnRotate or rotation is disabled, otherwise the pattern filled with UnixNano of the creation time that is also stored in LastCreated, and the timestamp-only rename target uses the same pattern; modes (0600 / 0700 constants, configured mode or default when zero, MkdirAll(Path, dirMode) before the open, Chmod iff a mode is configured); pruning removes exactly matches[i] for i < len(matches) - MaxFiles after sort.Strings, returns early when MaxFiles == 0, and runs only between the close and the re-open of a rotation; open resets BytesWritten and LastCreated, and the successful write adds its byte count. Strictly increasing timestamps and real directory contents are not decided."
+	r.Explanation = "Decides the configuration-to-behaviour clauses structurally: the full decision table of FileSink.rotate over the 81 orderings of {BytesWritten vs MaxBytes, MaxBytes vs 0, time.Since(LastCreated) vs MaxDuration, MaxDuration vs 0} — the branch that closes the file is taken iff (bytes >= max and max > 0) or (elapsed > dur and dur > 0); the file-name function yields the plain configured name iff TimestampOnlyOnRotate or rotation is disabled, otherwise the pattern filled with UnixNano of the creation time that is also stored in LastCreated, and the timestamp-only rename target uses the same pattern; modes (0600 / 0700 constants, configured mode or default when zero, MkdirAll(Path, dirMode) before the open, Chmod iff a mode is configured); pruning removes exactly matches[i] for i < len(matches) - MaxFiles after sort.Strings, returns early when MaxFiles == 0, and runs only between the close and the re-open of a rotation; open resets BytesWritten and LastCreated, and the successful write adds its byte count. Strictly increasing timestamps and real directory contents are not decided. C15.errors (no error of the rotation machinery dropped) and C15.pattern (shape of fileNamePattern)."
 	r.NotDecided = []string{"timestamps being strictly increasing (clock behaviour)", "actual directory contents / files outside the sink's name space", "MaxBytes > 0 but MaxDuration < 0 corner: rotateEnabled uses MaxDuration != 0"}
 	tb := p.NewTerms(nil)
 	// --- C15.errors: no failure of opening, creating, chmod-ing, closing, renaming, globbing or
@@ -940,6 +940,7 @@ func runC15(c *Ctx) {
 			r.Check(ok, "C15.errors", "(*eventlogger.FileSink).reopen->os.Stat:exception-shape", p.InstrPos(cs), "the Stat error is consumed by os.IsNotExist only (file gone -> re-open; anything else -> close and re-open)", "the exempted os.Stat error is no longer consumed by os.IsNotExist alone")
 		}
 	}
+	c.ruleNamePattern()
 	// --- C15.trigger
 	if fn := c.Fn("C15.trigger", PkgRoot, "FileSink", "rotate"); fn != nil {
 		paths := c.enum("C15.trigger", fn, PathOpts{})
@@ -1344,6 +1345,61 @@ func runC15(c *Ctx) {
 			}
 		})
 		r.Check(okCount, "C15.count", "(*FileSink).Process:count", p.Pos(fn.Pos()), "BytesWritten += n of the successful write", "the successful write's byte count is not added to BytesWritten (size-based rotation would never trigger)")
+		// ... and on EVERY acknowledged path: the count of the write that succeeded (the last WriteTo on
+		// the path, which may be the retry) is added to BytesWritten after it. A retry that succeeds
+		// without being counted lets the file grow past MaxBytes before the next rotation.
+		nAck, okAll := 0, true
+		for _, pa := range c.enum("C15.count", fn, PathOpts{Inline: inlineSmall("(*eventlogger.FileSink).open", "(*eventlogger.FileSink).rotate", "(*eventlogger.FileSink).reopen", "(*eventlogger.Event).Format")}) {
+			rv := pa.RetVals()
+			if rv == nil {
+				continue
+			}
+			var lastW *ssa.Call
+			lastIdx := -1
+			for i, s := range pa.Steps {
+				if cl, ok := s.In.(*ssa.Call); ok && !s.Deferred && calleeName(&cl.Call) == "(*bytes.Reader).WriteTo" {
+					lastW, lastIdx = cl, i
+				}
+			}
+			if lastW == nil {
+				continue
+			}
+			// acknowledged: the error returned is nil, or it is the last write's error established nil on the path
+			acked := isNilConst(rv[1])
+			if !acked {
+				et := pa.TermsAt(pa.LastStep()).Of(rv[1])
+				if et.Op == "Extract" && et.Name == "1" && et.Args[0].V == ssa.Value(lastW) {
+					// returned as is: nil (acknowledged) unless the path established that it is non-nil
+					if pol, f := hasAtom(pa, func(at Atom) bool { return at.Op == "eq" && at.R.Is("Const", "nil") && at.L.V == et.V }); !f || pol {
+						acked = true
+					}
+				}
+			}
+			if !acked {
+				continue
+			}
+			nAck++
+			counted := false
+			for i := lastIdx + 1; i < len(pa.Steps); i++ {
+				st, ok := pa.Steps[i].In.(*ssa.Store)
+				if !ok {
+					continue
+				}
+				stb := pa.TermsAt(pa.Steps[i])
+				at, vt := stb.Of(st.Addr), stb.Of(st.Val)
+				if b, ok := at.IsFieldAddr("BytesWritten"); ok && b.IsParam("0:fs") && vt.Op == "Bin" && vt.Name == "+" && vt.Args[0].Is("Field", "BytesWritten") &&
+					vt.Args[1].Op == "Extract" && vt.Args[1].Name == "0" && vt.Args[1].Args[0].V == ssa.Value(lastW) {
+					counted = true
+				}
+			}
+			if !counted && okAll {
+				okAll = false
+				r.Bad("C15.count", "(*FileSink).Process:count-every-ack", p.InstrPos(lastW), "an event is acknowledged after this write without its byte count being added to BytesWritten: the file holds more than the sink believes, and rotates later than MaxBytes demands ("+p.PathSummary(pa)+")")
+			}
+		}
+		if okAll {
+			r.Check(nAck >= 2, "C15.count", "(*FileSink).Process:count-every-ack", p.Pos(fn.Pos()), fmt.Sprintf("%d acknowledged writing paths, each adds the successful write's count", nAck), "fewer than 2 acknowledged writing paths found (first attempt and retry)")
+		}
 		// rotate() is called before the write on the file path
 		// on every path that writes to the sink's own file, rotate() ran exactly once, before the first write
 		okOrder := true
